@@ -238,6 +238,8 @@ class FinishedPdu(AbstractFileDirectiveBase):
         end_of_tlvs = finished_pdu.pdu_file_directive.packet_len
         if finished_pdu.pdu_file_directive.pdu_conf.crc_flag == CrcFlag.WITH_CRC:
             end_of_tlvs -= 2
+        if current_idx >= end_of_tlvs:
+            raise BytesTooShortError(current_idx + 1, end_of_tlvs)
         first_param_byte = data[current_idx]
         params = FinishedParams(
             condition_code=ConditionCode((first_param_byte & 0xF0) >> 4),
